@@ -44,6 +44,7 @@ import (
 	"github.com/atlassian/gostatsd/pkg/verifhook"
 
 	"verif/mon"
+	"verif/netx"
 	"verif/ovl"
 )
 
@@ -229,18 +230,18 @@ func (w *world) upstreamHandler(rw http.ResponseWriter, req *http.Request) {
 }
 
 func freeAddr() string {
-	l, err := net.Listen("tcp", "127.0.0.1:0")
+	l, err := net.Listen("tcp", netx.IP()+":0")
 	if err != nil {
-		return "127.0.0.1:0"
+		return netx.IP() + ":0"
 	}
 	defer l.Close()
 	return l.Addr().String()
 }
 
 func freeUDP() string {
-	c, err := net.ListenPacket("udp", "127.0.0.1:0")
+	c, err := net.ListenPacket("udp", netx.IP()+":0")
 	if err != nil {
-		return "127.0.0.1:0"
+		return netx.IP() + ":0"
 	}
 	defer c.Close()
 	return c.LocalAddr().String()
